@@ -150,6 +150,16 @@ pub fn update_fields(u: u8) -> BTreeMap<String, Fv> {
         15 => {
             m.insert("attrs".into(), Fv::Map(BTreeMap::new()));
         }
+        16 => {
+            // passes the schema, rejected by the vector index (wrong dimension) after
+            // the B-tree and BM25 stages already ran: everything must be rolled back
+            m.insert("age".into(), Fv::U64(41));
+            m.insert("body".into(), Fv::Text("omega omega".into()));
+            m.insert(
+                "emb".into(),
+                Fv::Vector([1.0f32, 2.0, 3.0].into_iter().map(bf16::from_f32).collect()),
+            );
+        }
         _ => panic!("no update template {u}"),
     }
     m
@@ -420,6 +430,16 @@ impl SeqModel {
                 }
             }
             Op::AddInvalid => Expect::Rejected(vec!["Schema", "Other"]),
+            Op::Update(id, 16) => match self.docs.docs.get(id) {
+                None => Expect::Rejected(vec!["NotFound"]),
+                Some(d) => {
+                    if idx.emb {
+                        Expect::Rejected(vec!["Other", "Schema"])
+                    } else {
+                        Expect::Doc(Box::new(apply_update(d, 16)))
+                    }
+                }
+            },
             Op::Update(id, u) => match self.docs.docs.get(id) {
                 None => Expect::Rejected(vec!["NotFound"]),
                 Some(d) => {
